@@ -345,7 +345,7 @@ Definition exec_pool (x : xcfg) (m : mem) (param : Z) (r : regs) : option mem :=
            (positions ov)))
   else None.
 
-(* elementwise: param = MUL 0, ADD 1, SUB 2, MIN 3, MAX 4, ABS 6, CLZ 7, SHR 8, SHL 9 (LRELU 5 not modelled).
+(* elementwise: param = MUL 0, ADD 1, SUB 2, MIN 3, MAX 4, LRELU 5 (16-bit operands only), ABS 6, CLZ 7, SHR 8, SHL 9.
    Operand A is the IFM, operand B the IFM2 (or the IFM2 scalar), exchanged when bit 6 of IFM2_BROADCAST is set.
    ADD/SUB operand scaling (bits 8-9 of IFM_PRECISION): 0 = both operands multiplied by their 16-bit scales;
    1 / 2 = operand A / B is shifted left by the input shift (20 for 8-bit, 15 for 16-bit operands) and scaled by the
@@ -384,6 +384,8 @@ Definition ew_value (elem mode smode rmode : Z) (gs : bool) (opa_s opa_sh opb_s 
   else if mode =? 2 then out (pre_a - pre_b)
   else if mode =? 3 then out (Z.min a b)
   else if mode =? 4 then out (Z.max a b)
+  else if mode =? 5 then (if a <? 0 then apply_scale rmode a ofm_s ofm_sh else a)
+       (* LRELU (5), unary, 16-bit: a negative operand is multiplied by OFM_SCALE (Vela programs it with alpha), others pass *)
   else if mode =? 7 then clz32 a
   else if mode =? 8 then shr_round rmode a b
   else if mode =? 9 then a * 2 ^ (Z.max 0 b)
@@ -402,7 +404,7 @@ Definition exec_elementwise (x : xcfg) (m : mem) (mode : Z) (r : regs) : option 
   let rev := (bc / 64) mod 2 =? 1 in
   let scalar := (bc / 128) mod 2 =? 1 in
   if negb (act_ok r (fv_elem iv) (fv_elem ov)) || negb (r0 r cmd0_NPU_SET_IFM_UPSCALE =? 0)
-     || negb ((mode <=? 4) || ((6 <=? mode) && (mode <=? 9))) then None else
+     || negb (mode <=? 9) || ((mode =? 5) && negb (fv_elem iv =? 2)) then None else
   let b1 := get_bank m (fv_region iv) in
   let b2 := get_bank m (fv_region v2) in
   let sg1 := ifm_signed r in
